@@ -6,7 +6,7 @@
    the metadata table [md] - and all numeric inputs (any binary64 value, NaN and
    infinities included) are universally quantified. *)
 From Coq Require Import Floats QArith Reals Lra Permutation.
-From SV Require Import Lib.Base Gen.PlacementConsts Model.Placement Proofs.Placement Proofs.PlacementR.
+From SV Require Import Lib.Base Gen.PlacementConsts Model.Placement Proofs.Placement Proofs.PlacementR Proofs.PlacementTie.
 
 (* The numbers of the property text, proved from the constants regenerated from
    src/placement/algorithms.rs: 100 km / 2 = 50 km, 2 per region, 3 per ASN. *)
@@ -123,20 +123,30 @@ Theorem C17_key_monotone : forall u w1 w2 : R,
   (0 < u < 1)%R -> (0 < w1 <= w2)%R -> (Rpower u (/ w1) <= Rpower u (/ w2))%R.
 Proof. exact rkey_monotone. Qed.
 
-(* Swap dominance: the sampler ([topk], as in the model, keys u^(1/w) over the reals).  Let a
-   be at least as heavy as b.  If with draws (ua, ub) the lighter b is selected and the
-   heavier a is not, then with the two draws exchanged a is selected and b is not - for tie-free
-   keys in both runs.  Exchanging the draws is a measure-preserving involution on the draw
-   space, so P(b selected) <= P(a selected). *)
+(* Swap dominance: the sampler ([topk], as in the model: stable descending sort, keys u^(1/w)
+   over the reals).  Let a be at least as heavy as b.  If with draws (ua, ub) the lighter b is
+   selected and the heavier a is not, then with the two draws exchanged a is selected and b is
+   not.  The original run may contain any ties (they are broken by slice position, as the
+   stable sort does); in the exchanged run only the two exchanged candidates must not tie with
+   another key.  Exchanging the two draws is a measure-preserving involution of the draw space
+   and ties have probability zero, hence P(b selected) <= P(a selected). *)
 Theorem C17_swap_dominance : forall (es : list entry) k a b wa wb ua ub,
   NoDup (map e_id es) ->
   In (a, (wa, ua)) es -> In (b, (wb, ub)) es -> a <> b ->
   (0 < wb <= wa)%R -> (0 < ua < 1)%R -> (0 < ub < 1)%R ->
   let es' := swap_draws a b ua ub es in
-  NoDup (map e_key es) -> NoDup (map e_key es') ->
+  (forall e, In e es' -> e_id e <> a -> e_key e <> Rpower ub (/ wa)) ->
+  (forall e, In e es' -> e_id e <> b -> e_key e <> Rpower ua (/ wb)) ->
   In b (rsample es k) -> ~ In a (rsample es k) ->
   In a (rsample es' k) /\ ~ In b (rsample es' k).
-Proof. exact swap_dominance. Qed.
+Proof. exact swap_dominance_ties. Qed.
+
+(* what "selected" means for the sampler, ties included: fewer than k entries rank before it,
+   where q ranks before p iff key q > key p, or the keys are equal and q is listed earlier *)
+Theorem C17_sampler_rank : forall (es : list entry) k i e,
+  NoDup (map e_id es) -> nth_error es i = Some e ->
+  (In (e_id e) (rsample es k) <-> (cntG (fun q => befE q (i, e)) (indexed es) < k)%nat).
+Proof. exact rsample_char_stable. Qed.
 
 (* ReplicationFactor::new accepts exactly 1 <= min <= default <= max; the shipped default
    (3, 8, 16) is accepted and its maximum is the 16 of C17_at_most_16 *)
